@@ -16,6 +16,9 @@ func (du *decodeUnit) cycle(app risc.Application, inBus *comp.SimpleBus[int32], 
 	if !exists {
 		return
 	}
+	if int(pc)/4 >= len(app.Instructions) {
+		return
+	}
 	runner := app.Instructions[pc/4]
 	// Clear forward (the program may have been run by a forwarding machine)
 	runner.Forward(risc.Forward{})
